@@ -404,7 +404,7 @@ def sub(base, index):
         i = index[1]
         if -len(base[1]) <= i < len(base[1]):
             return base[1][i]
-    if base[0] == 'dict' and index[0] == 'c':
+    if base[0] == 'dict':
         for kv in base[1]:
             if kv[0] == 'kv' and kv[1] == index:
                 return kv[2]
